@@ -227,6 +227,18 @@ def closure(repo: Repo, chk: Check) -> None:
                    "an op joins the moved closure only under is_side_effect_free(op)",
                    f"{ast.unparse(arg)} joins the moved closure without a purity test: an op with effects (a launch, a load) can be moved/cloned",
                    s.fact_texts)
+    # captured values: an accepted op either has no regions, or what its regions use is followed as well
+    for s in apps:
+        arg = s.node.args[0]
+        no_regions = bool(has_fact(s, ["not $x.regions", "len($x.regions) == 0", "$x.regions == ()"], {"x": arg}))
+        follows_nested = any(
+            isinstance(n, ast.Call) and callee_name(n) in ("walk", "walk_regions") for n in ast.walk(f.node)) and any(
+            isinstance(n, ast.Call) and callee_name(n) == "extend" and any(isinstance(x, ast.Attribute) and x.attr == "operands" for x in ast.walk(n)) and any(
+                isinstance(x, ast.Call) and callee_name(x) == "walk" for x in ast.walk(n)) for n in ast.walk(f.node))
+        chk.result(no_regions or follows_nested, "C06.closure-pure", f"{f.key}:captured-values", s.where(),
+                   "an op joins the moved closure only if it has no regions (or the values its regions use are followed too)",
+                   f"{ast.unparse(arg)} can be a pure op with regions (e.g. scf.if): only its operands are followed, the values used inside its regions are not, so it "
+                   "can be moved in front of their definitions (use before definition)", s.fact_texts)
     none_rets = [s for s in fl.stmts(ast.Return) if s.reachable and (s.node.value is None or (isinstance(s.node.value, ast.Constant) and s.node.value.value is None))]
     impure = [s for s in none_rets if has_fact(s, ["not is_side_effect_free($_)"])]
     chk.result(bool(impure), "C06.closure-pure", f"{f.key}:impure-none", impure[0].where() if impure else f.where,
